@@ -47,6 +47,8 @@ structure Th where
   locals : List (Nat × Nat) := []
   /-- progress inside a multi-step operation (`blockon`): see `step` -/
   phase : Nat := 0
+  /-- waker clones kept by this thread (`wclone`): future ↦ the `block_on` call they belong to -/
+  held : List (Nat × Nat) := []
 deriving DecidableEq, Repr, Inhabited, Hashable
 
 /-- a scripted future of the DSL and the `block_on` that drives it -/
@@ -56,6 +58,8 @@ structure Fut where
   spurUsed : Bool := false         -- its one modelled spurious return has happened
   wakers : Nat := 0                -- live references to the `block_on`'s waker
   rel : VV := VV.zero              -- release clock of the notifications
+  gen : Nat := 0                   -- which `block_on` call of this future is the current one
+  slotGen : Nat := 0               -- the call whose waker is registered
 deriving DecidableEq, Repr, Inhabited, Hashable
 
 structure St where
@@ -463,44 +467,77 @@ def step (p : Prog) (s : St) (t : Nat) : List St :=
         else s
       let s := s.acquire t (s.lazyRel.getD z VV.zero)
       [s.ret t (.val ((s.lazyInit.getD z 0 : Int) * 100 + 40 + z))]
-    | .blockOn f _ =>
+    | .blockOn f mode =>
       let u := s.futs.getD f {}
       let setF (s : St) (g : Fut → Fut) : St := { s with futs := s.futs.modify f g }
+      -- mode 2: ready iff the flag is 2, read relaxed; otherwise ready iff it is 1, read acquire
       let readFlag (s : St) : St × Bool :=
-        ((s.acquire t (s.atomRel.getD f VV.zero)), s.atoms.getD f 0 == 1)
+        if mode == 2 then (s, s.atoms.getD f 0 == 2)
+        else ((s.acquire t (s.atomRel.getD f VV.zero)), s.atoms.getD f 0 == 1)
       match h.phase with
-      | 0 => [(setF s fun u => { u with wakers := 1 }).modTh t fun h => { h with phase := 1 }]
+      | 0 =>
+        -- a new call: its own notification flag and spurious budget, a new waker
+        [(setF s fun u => { u with wakers := u.wakers + 1, gen := u.gen + 1, notified := false,
+                                   spurUsed := false, rel := VV.zero }).modTh t fun h => { h with phase := 1 }]
       | 1 =>
         let (s, ready) := readFlag s
         [s.modTh t fun h => { h with phase := if ready then 5 else 2 }]
       | 2 =>
-        -- register a clone of the waker (an older registered clone is dropped)
-        [(setF s fun u => { u with slot := true, wakers := if u.slot then u.wakers else u.wakers + 1 }).modTh t
+        -- register a clone of the waker (an older registered clone is dropped): it is now the most recent one
+        [(setF s fun u => { u with slot := true, slotGen := u.gen,
+                                   wakers := if u.slot then u.wakers else u.wakers + 1 }).modTh t
           fun h => { h with phase := 3 }]
       | 3 =>
         let (s, ready) := readFlag s
+        -- (mode 4 polls once: if the future is still pending the call returns 0, the registration stays)
+        if !ready && mode == 4 then
+          [((setF s fun u => { u with wakers := u.wakers - 1 }).modTh t fun h => { h with phase := 0 }).ret t (.val 0)]
+        else
         [s.modTh t fun h => { h with phase := if ready then 5 else 4 }]
       | 4 =>
         -- woken: consume the notification and poll again
         [((setF s fun u => { u with notified := false }).acquire t u.rel).modTh t fun h => { h with phase := 1 }]
       | _ =>
-        -- ready: `block_on` returns; its own reference and a still registered clone are dropped
-        let s := setF s fun u => { u with slot := false, wakers := u.wakers - 1 - (if u.slot then 1 else 0) }
+        -- ready: `block_on` returns; its own reference is dropped, and (unless mode 3 leaves the registration
+        -- in the shared `AtomicWaker`) a still registered clone too
+        let s := if mode == 3 || mode == 4 then setF s fun u => { u with wakers := u.wakers - 1 }
+          else setF s fun u => { u with slot := false, wakers := u.wakers - 1 - (if u.slot then 1 else 0) }
         [(s.modTh t fun h => { h with phase := 0 }).ret t (.val 7)]
     | .wake f | .awWake f =>
       let s := { s with atoms := s.atoms.set f 1, atomRel := s.atomRel.set f (s.vc t) }
       let u := s.futs.getD f {}
       if u.slot then
+        -- the most recently registered waker is taken and woken: it notifies the call it belongs to
         [({ s with futs := s.futs.modify f fun u =>
-            { u with slot := false, notified := true, rel := u.rel.join (s.vc t), wakers := u.wakers - 1 } }).ret t .unit]
+            { u with slot := false, wakers := u.wakers - 1,
+                     notified := u.notified || u.slotGen == u.gen,
+                     rel := if u.slotGen == u.gen then u.rel.join (s.vc t) else u.rel } }).ret t .unit]
       else [s.ret t .unit]
-    | .wakeRef f =>
-      let s := { s with atoms := s.atoms.set f 1, atomRel := s.atomRel.set f (s.vc t) }
+    | .wakeRef f | .wakeQ f =>
+      let s := match op with
+        | .wakeRef _ => { s with atoms := s.atoms.set f 1, atomRel := s.atomRel.set f (s.vc t) }
+        | _ => s
       let u := s.futs.getD f {}
       if u.slot then
-        [({ s with futs := s.futs.modify f fun u => { u with notified := true, rel := u.rel.join (s.vc t) } }).ret t .unit]
+        [({ s with futs := s.futs.modify f fun u =>
+            { u with notified := u.notified || u.slotGen == u.gen,
+                     rel := if u.slotGen == u.gen then u.rel.join (s.vc t) else u.rel } }).ret t .unit]
       else [s.ret t .unit]
-    | .dropWaker f =>
+    | .wClone f =>
+      let u := s.futs.getD f {}
+      if u.slot then
+        [(({ s with futs := s.futs.modify f fun u => { u with wakers := u.wakers + 1 } }).modTh t fun h =>
+          { h with held := (f, u.slotGen) :: h.held.filter (·.1 != f) }).ret t (.val 1)]
+      else [s.ret t (.val 0)]
+    | .wakeH f =>
+      match h.held.lookup f with
+      | none => [s.ret t .unit]
+      | some g =>
+        [(({ s with futs := s.futs.modify f fun u =>
+            { u with wakers := u.wakers - 1, notified := u.notified || g == u.gen,
+                     rel := if g == u.gen then u.rel.join (s.vc t) else u.rel } }).modTh t fun h =>
+          { h with held := h.held.filter (·.1 != f) }).ret t .unit]
+    | .dropWaker f | .awTake f =>
       let u := s.futs.getD f {}
       if u.slot then
         [({ s with futs := s.futs.modify f fun u => { u with slot := false, wakers := u.wakers - 1 } }).ret t .unit]
